@@ -4,6 +4,7 @@ mod c02;
 mod c04;
 mod c05;
 mod c06;
+mod c09;
 mod c_diff;
 mod comp;
 mod dynp;
@@ -32,6 +33,7 @@ fn main() {
         "c04" => c04::main(&a),
         "c05" => c05::main(&a),
         "c06" => c06::main(&a),
+        "c09" => c09::main(&a),
         "dump" => dump(&a),
         w => {
             eprintln!("unknown worker {w}");
